@@ -184,7 +184,8 @@ CallBuiltin(name, a, st) ==
                          ELSE IF a[1].t = "err" THEN R("err", a[1], st) ELSE R("thr", a[1], st)
     [] name = "raise!" -> R("err", ErrV("raise"), st)
     [] name = "boom!" -> R("err", ErrV("boom"), st)
-    [] name = "boom-str!" -> R("err", ErrV("boomstr"), st)
+    \* a Go panic with a NON-error value surfaces as that value thrown (binder convention)
+    [] name = "boom-str!" -> R("thr", StrV("boom-str"), st)
     [] name = "atom" -> IF n # 1 THEN R("err", ErrV("builtin"), st)
                         ELSE R("val", AtomV(Len(st.atoms) + 1), [st EXCEPT !.atoms = Append(@, a[1])])
     [] name = "deref" -> IF n # 1 THEN R("err", ErrV("builtin"), st)
